@@ -33,7 +33,9 @@ RULE = ("Hypothesis draws (variable declarations over main program and "
         "statement (hash-map store, Dict operation, helper call, expression "
         "of depth 2, abs, bit-field store from a comparison) lies between a "
         "write of one variable and the dump of another; distinct by "
-        "(declaration kinds/formats/owners, statement kinds)")
+        "(declaration kinds/formats/owners, statement kinds); plus an "
+        "enumerated family of hash maps with 100-513 variables (written "
+        "and read one by one from Python and the program)")
 ASSUMPTIONS = [
     "arithmetic operands are kept non-negative and results below 256, so "
     "C01's known arithmetic findings cannot be the cause of a mismatch",
